@@ -17,7 +17,6 @@ import (
 
 	"github.com/gocql/gocql"
 	"gopkg.in/inf.v0"
-	"verifharness/vh"
 )
 
 // ---------- named types (reflect.Kind fallbacks) ----------
@@ -210,7 +209,7 @@ func (p *toks) big() *big.Int {
 	return n
 }
 func (p *toks) hex() []byte {
-	b, err := vh.UnHex(p.next())
+	b, err := UnHexC(p.next())
 	if err != nil {
 		panic("bad-op: hex")
 	}
@@ -415,8 +414,34 @@ type Val struct {
 	Bool  bool
 	GT    *GT // element type of sl / slnil / arr / mset ; key type of map
 	GT2   *GT // value type of map
+	N     int // slrep / mapseq: number of elements
+	plain *Val
 	Elems []*Val
 	Names []string
+}
+
+// Plain: the equivalent `sl` / `map` value of a compact `slrep` / `mapseq` value (the copies share one *Val).
+func (v *Val) Plain() *Val {
+	if v == nil || (v.Tag != "slrep" && v.Tag != "mapseq") {
+		return v
+	}
+	if v.plain != nil {
+		return v.plain
+	}
+	if v.Tag == "slrep" {
+		p := &Val{Tag: "sl", GT: v.GT, Elems: make([]*Val, v.N)}
+		for i := range p.Elems {
+			p.Elems[i] = v.Elems[0]
+		}
+		v.plain = p
+		return p
+	}
+	p := &Val{Tag: "map", GT: v.GT, GT2: v.GT2, Elems: make([]*Val, 0, 2*v.N)}
+	for i := 0; i < v.N; i++ {
+		p.Elems = append(p.Elems, &Val{Tag: "i", Kind: v.Kind, Int: big.NewInt(int64(i))}, v.Elems[0])
+	}
+	v.plain = p
+	return p
 }
 
 func (v *Val) String() string {
@@ -431,7 +456,7 @@ func (v *Val) write(sb *strings.Builder) {
 	case "i", "ni":
 		sb.WriteString(" " + v.Kind + " " + v.Int.String())
 	case "s", "ns", "b", "nb", "uuid", "a16", "ip":
-		sb.WriteString(" " + vh.Hex(v.Bytes))
+		sb.WriteString(" " + HexC(v.Bytes))
 	case "bool", "nbool":
 		if v.Bool {
 			sb.WriteString(" 1")
@@ -457,6 +482,12 @@ func (v *Val) write(sb *strings.Builder) {
 		}
 	case "slnil":
 		sb.WriteString(" " + v.GT.String())
+	case "slrep":
+		sb.WriteString(" " + v.GT.String() + " " + strconv.Itoa(v.N) + " ")
+		v.Elems[0].write(sb)
+	case "mapseq":
+		sb.WriteString(" " + v.Kind + " " + v.GT2.String() + " " + strconv.Itoa(v.N) + " ")
+		v.Elems[0].write(sb)
 	case "ifs", "st":
 		sb.WriteString(" " + strconv.Itoa(len(v.Elems)))
 		for _, e := range v.Elems {
@@ -526,6 +557,25 @@ func parseVal(p *toks) *Val {
 		}
 	case "slnil":
 		v.GT = parseGT(p)
+	case "slrep": // slrep GT n V: a slice of n copies of V
+		v.GT = parseGT(p)
+		v.N = p.num()
+		if v.N < 0 || v.N > 1<<20 {
+			panic("bad-op: slrep count")
+		}
+		v.Elems = []*Val{parseVal(p)}
+	case "mapseq": // mapseq K GV n V: map[K]GV{0: V, 1: V, ..., n-1: V}
+		v.Kind = p.next()
+		if _, ok := kindTypes[v.Kind]; !ok {
+			panic("bad-op: kind")
+		}
+		v.GT = &GT{Name: "k", Kind: v.Kind}
+		v.GT2 = parseGT(p)
+		v.N = p.num()
+		if v.N < 0 || v.N > 1<<20 || !KindHolds(v.Kind, big.NewInt(int64(v.N))) {
+			panic("bad-op: mapseq count")
+		}
+		v.Elems = []*Val{parseVal(p)}
 	case "ifs", "st":
 		n := p.num()
 		for i := 0; i < n; i++ {
@@ -673,6 +723,28 @@ func (v *Val) build(want reflect.Type) reflect.Value {
 		return s
 	case "slnil":
 		return reflect.Zero(reflect.SliceOf(v.GT.RType()))
+	case "slrep":
+		et := v.GT.RType()
+		s := reflect.MakeSlice(reflect.SliceOf(et), v.N, v.N)
+		for i := 0; i < v.N; i++ {
+			if b := v.Elems[0].build(et); b.IsValid() {
+				s.Index(i).Set(b)
+			}
+		}
+		return s
+	case "mapseq":
+		kt, vt := v.GT.RType(), v.GT2.RType()
+		m := reflect.MakeMapWithSize(reflect.MapOf(kt, vt), v.N)
+		for i := 0; i < v.N; i++ {
+			k := reflect.New(kt).Elem()
+			setInt(k, v.Kind, big.NewInt(int64(i)))
+			val := v.Elems[0].build(vt)
+			if !val.IsValid() {
+				val = reflect.Zero(vt)
+			}
+			m.SetMapIndex(k, val)
+		}
+		return m
 	case "arr":
 		et := v.GT.RType()
 		a := reflect.New(reflect.ArrayOf(len(v.Elems), et)).Elem()
@@ -780,6 +852,14 @@ func kindOf(t reflect.Type) string {
 	return ""
 }
 
+func showElems(rv reflect.Value) []string {
+	es := make([]string, rv.Len())
+	for i := range es {
+		es[i] = Show(rv.Index(i))
+	}
+	return es
+}
+
 // Show prints a Go value in the canonical token syntax (no Go types; map entries sorted by printed key).
 func Show(rv reflect.Value) string {
 	if !rv.IsValid() {
@@ -801,23 +881,19 @@ func Show(rv reflect.Value) string {
 		return fmt.Sprintf("cd %d %d %d", d.Months, d.Days, d.Nanoseconds)
 	case tUUID:
 		u := rv.Interface().(gocql.UUID)
-		return "uuid " + vh.Hex(u[:])
+		return "uuid " + HexC(u[:])
 	case tA16:
 		u := rv.Interface().([16]byte)
-		return "a16 " + vh.Hex(u[:])
+		return "a16 " + HexC(u[:])
 	case tIP:
-		return "ip " + vh.Hex([]byte(rv.Interface().(net.IP)))
+		return "ip " + HexC([]byte(rv.Interface().(net.IP)))
 	case tDur:
 		return fmt.Sprintf("dur %d", rv.Int())
 	case tIfaces:
 		if rv.IsNil() {
 			return "slnil"
 		}
-		s := "ifs " + strconv.Itoa(rv.Len())
-		for i := 0; i < rv.Len(); i++ {
-			s += " " + Show(rv.Index(i))
-		}
-		return s
+		return "ifs " + strconv.Itoa(rv.Len()) + showRuns(showElems(rv))
 	case tUMap:
 		if rv.IsNil() {
 			return "umnil"
@@ -847,7 +923,7 @@ func Show(rv reflect.Value) string {
 	case reflect.Uint, reflect.Uint8, reflect.Uint16, reflect.Uint32, reflect.Uint64:
 		return pre("i ", "ni ") + kindOf(t) + " " + strconv.FormatUint(rv.Uint(), 10)
 	case reflect.String:
-		return pre("s ", "ns ") + vh.Hex([]byte(rv.String()))
+		return pre("s ", "ns ") + HexC([]byte(rv.String()))
 	case reflect.Bool:
 		if rv.Bool() {
 			return pre("bool", "nbool") + " 1"
@@ -875,22 +951,14 @@ func Show(rv reflect.Value) string {
 			if rv.IsNil() {
 				return pre("bnil", "nbnil")
 			}
-			return pre("b ", "nb ") + vh.Hex(rv.Bytes())
+			return pre("b ", "nb ") + HexC(rv.Bytes())
 		}
 		if rv.IsNil() {
 			return "slnil"
 		}
-		s := "sl " + strconv.Itoa(rv.Len())
-		for i := 0; i < rv.Len(); i++ {
-			s += " " + Show(rv.Index(i))
-		}
-		return s
+		return "sl " + strconv.Itoa(rv.Len()) + showRuns(showElems(rv))
 	case reflect.Array:
-		s := "arr " + strconv.Itoa(rv.Len())
-		for i := 0; i < rv.Len(); i++ {
-			s += " " + Show(rv.Index(i))
-		}
-		return s
+		return "arr " + strconv.Itoa(rv.Len()) + showRuns(showElems(rv))
 	case reflect.Map:
 		if rv.IsNil() {
 			return "mapnil"
@@ -902,11 +970,12 @@ func Show(rv reflect.Value) string {
 			es = append(es, kv{Show(it.Key()), Show(it.Value())})
 		}
 		sort.Slice(es, func(i, j int) bool { return es[i].k < es[j].k })
-		s := "map " + strconv.Itoa(len(es))
+		var sb strings.Builder
+		sb.WriteString("map " + strconv.Itoa(len(es)))
 		for _, e := range es {
-			s += " " + e.k + " " + e.v
+			sb.WriteString(" " + e.k + " " + e.v)
 		}
-		return s
+		return sb.String()
 	case reflect.Struct:
 		tagged := t.NumField() > 0 && t.Field(0).Tag.Get("cql") != ""
 		if tagged {
@@ -946,7 +1015,7 @@ func ParseDec(w []string) (proto byte, t *Ty, data []byte, g *GT) {
 	t = parseTy(p)
 	d := p.next()
 	if d != "null" {
-		b, err := vh.UnHex(d)
+		b, err := UnHexC(d)
 		if err != nil {
 			panic("bad-op: hex")
 		}
